@@ -21,7 +21,8 @@ ASSUMPTIONS = ["pytrie contract stub", "pydantic BaseModel stub", "strict precon
 SHAPES = [
     ("remap_uri", [[0, 1]], False, Q, dict(params=dict(m=1))), ("remap_uri", [[0, 0], [0, 0]], False, Q, dict(params=dict(m=2), budget=600, shard=6)),
     ("remap_uri", [[0, 1], [0, 0]], False, Q, dict(params=dict(m=1))),
-    ("rewire", [[1, 1]], False, Q, dict(params=dict(m=1))), ("rewire", [[0, 0], [0, 0]], False, Q, dict(params=dict(m=2), budget=600, shard=6)),
+    ("rewire", [[1, 1]], False, Q, dict(params=dict(m=1))), ("rewire", [[1, 0]], False, Q, dict(params=dict(m=2), budget=600, shard=5)),
+    ("remap_uri", [[0, 1]], False, Q, dict(params=dict(m=2), budget=600, shard=5)), ("rewire", [[0, 0], [0, 0]], False, Q, dict(params=dict(m=2), budget=600, shard=6)),
     ("rewire", [[1, 0], [0, 1]], False, Q, dict(params=dict(m=1), budget=600, shard=5)),
     ("remap_uri", [[1, 1], [0, 1]], False, T, dict(params=dict(m=2), budget=3000, shard=9)),
     ("remap_uri", [[0, 0]] * 3, False, T, dict(params=dict(m=2), budget=3000, shard=9)),
